@@ -661,6 +661,48 @@ def gen_ffi_tables(repo):
     funcs += '(* plain data: (target struct / constructor, its field / parameter, the source field that feeds it) *)\n'
     funcs += 'Definition field_forwarding : list (string * string * string) := [\n' + ';\n'.join(f'  ({coq_str(a)}, {coq_str(b_)}, {coq_str(c)})' for a, b_, c in fw) + '\n].\n\n'
 
+    # ------------------------------------------------------------------ AuthorizationHandlerWrapper: what the C authorization callbacks are shown
+    m = re.search(r'struct\s+AuthorizationHandlerWrapper\s*\{', fserver)
+    if not m:
+        raise ParseError('server.rs: struct AuthorizationHandlerWrapper not found')
+    sbody = fserver[m.end():matching(fserver, m.end() - 1, '{', '}') - 1]
+    wfields = [x.split(':', 1)[0].strip() for x in rp.split_top(sbody) if x.strip()]
+    aimpl = rp.find_body(fserver, r'impl\s+AuthorizationHandler\s+for\s+AuthorizationHandlerWrapper\s*\{')
+    funcs += '(* server.rs: struct AuthorizationHandlerWrapper (ONE object per server, shared by all its sessions) and its eight methods:\n'
+    funcs += '   where the role string handed to the C callback comes from, which callback is called with which arguments, and the answer\n'
+    funcs += '   when the callback pointer is not set *)\n'
+    funcs += 'Definition authz_wrapper_fields : list string := [' + '; '.join(coq_str(x) for x in wfields) + '].\n'
+    funcs += 'Inductive role_source := RoleOfThisCall   (* a C string made from the `role: &str` parameter of this very call *)\n| OtherRoleSource (e : string).\n'
+    funcs += 'Record authz_wrapper := { aw_method : string; aw_callback : string; aw_role : role_source; aw_unit : string; aw_arg : string; aw_result_into : bool; aw_unset_denies : bool }.\n'
+    rows = []
+    for meth in ['read_coils', 'read_discrete_inputs', 'read_holding_registers', 'read_input_registers',
+                 'write_single_coil', 'write_single_register', 'write_multiple_coils', 'write_multiple_registers']:
+        mm = re.search(r'fn\s+' + meth + r'\s*\(', aimpl)
+        if not mm:
+            raise ParseError(f'server.rs AuthorizationHandlerWrapper: fn {meth} not found')
+        pclose = matching(aimpl, mm.end() - 1, '(', ')')
+        params = [x.split(':', 1)[0].strip() for x in rp.split_top(aimpl[mm.end():pclose - 1]) if x.strip()]
+        bopen = aimpl.find('{', pclose)
+        body = aimpl[bopen + 1:matching(aimpl, bopen, '{', '}') - 1]
+        stmts = [''.join(x.split()) for x in rp.split_top(body, ';') if x.strip()]
+        role_src = 'OtherRoleSource "no `let role = ..` statement"'
+        call = None
+        for st in stmts:
+            if st.startswith('letrole='):
+                rhs = st[len('letrole='):]
+                role_src = 'RoleOfThisCall' if rhs == 'unsafe{&std::ffi::CString::from_vec_unchecked(role.into())}' and 'role' in params else 'OtherRoleSource ' + coq_str(rhs)
+            else:
+                call = st
+        mc = re.fullmatch(r'self\.inner\.(\w+)\(([^()]*(?:\([^()]*\))?[^()]*)\)\.map\(\|result\|result\.into\(\)\)\.unwrap_or\(Authorization::(\w+)\)', call or '')
+        if not mc:
+            raise ParseError(f'server.rs AuthorizationHandlerWrapper::{meth}: tail expression not understood: {call}')
+        cargs = rp.split_top(mc.group(2))
+        if len(cargs) != 3 or cargs[2] != 'role':
+            role_src = 'OtherRoleSource ' + coq_str('third callback argument is ' + (cargs[2] if len(cargs) > 2 else '?'))
+        rows.append(f'  {{| aw_method := {coq_str(meth)}; aw_callback := {coq_str(mc.group(1))}; aw_role := {role_src}; aw_unit := {coq_str(cargs[0])}; '
+                    f'aw_arg := {coq_str(cargs[1] if len(cargs) > 1 else "?")}; aw_result_into := true; aw_unset_denies := {"true" if mc.group(3) == "Deny" else "false"} |}}')
+    funcs += 'Definition authz_wrappers : list authz_wrapper := [\n' + ';\n'.join(rows) + '\n].\n\n'
+
     # ------------------------------------------------------------------ constructors: which C argument feeds which parameter of the Rust constructor
     def params_of(src, fname, where):
         m = re.search(r'pub\s+(?:async\s+)?fn\s+' + fname + r'\s*(<[^>(]*>)?\s*\(', src)
